@@ -574,6 +574,8 @@ func runOne(t *testing.T, run *vh.Run, r *vh.Rand, c *Case, exhaustiveLimit int)
 		historyCase(t, run, c)
 	case "histlive":
 		liveHistoryCase(t, run, c)
+	case "size":
+		sizeCase(t, run, c, false)
 	}
 }
 
@@ -653,6 +655,8 @@ func TestCheck(t *testing.T) {
 				liveHistoryCase(t, run, &c)
 			}
 		}
+		// single records of every size class below the framing limit through Snapshot + load
+		sizesAll(t, run, r.Fork(), env)
 		// codec differential and prefix/corruption classes
 		codecAll(t, run, r.Fork(), env)
 		// records over the 4 MiB framing limit (known finding): corpus/C11/oversize-*.json, run first on every run
